@@ -16,7 +16,7 @@ COQ_MODEL_TARGETS = ["Trie/Radix.vo", "Trie/PrefixMap.vo", "Trie/Locks.vo", "Tri
 
 def parse_lines(out):
     """-> dict tag -> {id: body} for the line-oriented outputs (H/R/O/M/P/J lines), plus S stats."""
-    d = {"H": {}, "R": {}, "O": {}, "M": {}, "P": {}, "J": {}, "D": {}}
+    d = {"H": {}, "R": {}, "O": {}, "M": {}, "P": {}, "J": {}, "D": {}, "N": {}}
     stats = {}
     order = []
     for l in out.split("\n"):
@@ -33,7 +33,7 @@ def parse_lines(out):
             continue
         t = l.split(" ", 2)
         d[tag][t[1]] = t[2] if len(t) > 2 else ""
-        if tag in ("H", "P", "J"):
+        if tag in ("H", "P", "J", "N"):
             order.append((tag, t[1]))
     return d, stats, order
 
@@ -67,7 +67,7 @@ class Side:
         self.replay_mode = replay_mode
 
 
-SIDES = {"H": Side("H", "replay"), "P": Side("P", "preplay"), "J": Side("J", "ireplay")}
+SIDES = {"H": Side("H", "replay"), "P": Side("P", "preplay"), "J": Side("J", "ireplay"), "N": Side("N", "sreplay")}
 
 
 def evaluate(binp, runner, tag, hid, ops, with_spec=True):
@@ -98,7 +98,7 @@ def evaluate(binp, runner, tag, hid, ops, with_spec=True):
     res["model"] = model
     if model != impl:
         res["problems"].append("impl!=model")
-    if with_spec and tag != "P":
+    if with_spec and tag == "H":
         spec = run_model(runner, "spec", line).get(hid)
         res["spec"] = spec
         if spec != model:
@@ -285,7 +285,7 @@ def corpus_replay(ctx, binp, runner, prop):
             continue
         for l in open(os.path.join(d, fn)):
             l = l.rstrip("\n")
-            if len(l) < 3 or l[0] not in "HPJ" or l[1] != " ":
+            if len(l) < 3 or l[0] not in "HPJN" or l[1] != " ":
                 continue
             t = l.split(" ", 2)
             ops = [o for o in (t[2] if len(t) > 2 else "").split(";") if o]
